@@ -305,6 +305,16 @@ fn c01_like(tier: Tier, oracles: Oracles, with_drop: bool) -> Vec<Scenario> {
         let pops = kv_ops(&KV_KEYS, &vals);
         out.push(Scenario::new(&format!("kv-full-p{}-m1", ps), Cfg { pagesize: ps, ..Cfg::default() }, kv_base(Some(third)), Box::new(txs_of(&pops, 1, with_drop, true)), if q { 2 } else { 3 }, oracles));
     }
+    // the (legal) empty key in a bucket large enough to have a branch page: the first separator is ""
+    {
+        let mut setup_ops = vec![OpSpec::bucket("create", &[], "b"), OpSpec::put(&["b"], "", "w*300")];
+        for k in KV_KEYS {
+            setup_ops.push(OpSpec::put(&["b"], k, "w*300"));
+        }
+        let ekeys = ["", "k0", "k3"];
+        let eops = kv_ops(&ekeys, &KV_VALS);
+        out.push(Scenario::new("kv-full300-with-empty-key-m1", Cfg::default(), vec![tx(setup_ops), Action::Reopen], Box::new(txs_of(&eops, 1, with_drop, true)), if q { 2 } else { 3 }, oracles));
+    }
     // nest driver
     let nops = nest_ops();
     let nsmall = nest_ops_small();
